@@ -81,12 +81,18 @@ type Definitions struct {
 	Exporter     bool   `json:"exporter,omitempty"`     // exporter / exporterVersion attributes
 	DefLang      string `json:"defLang,omitempty"`      // "" = expr, "xpath": the definitions-level expressionLanguage
 	ImplicitLang bool   `json:"implicitLang,omitempty"` // conditions in the definitions-level language do not repeat it
+	FlowOrder    int    `json:"flowOrder,omitempty"`    // document order of the sequenceFlow elements: 0 as created, 1 reversed, 2 odd positions first (the order a node LISTS its outgoing flows in is what counts, not this one)
+	FlowsFirst   bool   `json:"flowsFirst,omitempty"`   // the sequenceFlow elements stand in front of the flow nodes
 	Zoo          string `json:"zoo,omitempty"`          // raw XML of a further, non-executable process (and root elements) the engine never runs
 	ctr map[string]int
 }
 
 // emitImplicitLang is the language conditions may leave out while a document is being written ("" = none)
 var emitImplicitLang string
+
+// emitFlowOrder / emitFlowsFirst: document order variations in force while a document is being written
+var emitFlowOrder int
+var emitFlowsFirst bool
 
 // fresh returns a new id with prefix p; every prefix has its own counter, so that adding wrapper
 // nodes or flows does not rename the activities.
@@ -224,6 +230,16 @@ func condText(c *Cond) (lang string, text string) {
 var taskTags = []string{"task", "serviceTask", "scriptTask", "userTask", "manualTask", "callActivity", "businessRuleTask", "sendTask", "receiveTask"}
 
 func (g *Graph) emitBody(b *strings.Builder, ind string) {
+	if emitFlowsFirst {
+		g.emitFlows(b, ind)
+	}
+	g.emitNodes(b, ind)
+	if !emitFlowsFirst {
+		g.emitFlows(b, ind)
+	}
+}
+
+func (g *Graph) emitNodes(b *strings.Builder, ind string) {
 	for _, n := range g.Nodes {
 		tag := ""
 		attrs := fmt.Sprintf(` id="%s"`, n.ID)
@@ -324,7 +340,27 @@ func (g *Graph) emitBody(b *strings.Builder, ind string) {
 	for _, do := range g.DataObjects {
 		fmt.Fprintf(b, "%s<bpmn:dataObject id=\"%s\" name=\"%s\"/>\n", ind, do, do)
 	}
-	for _, f := range g.Flows {
+}
+
+func (g *Graph) emitFlows(b *strings.Builder, ind string) {
+	flows := append([]*Flow{}, g.Flows...)
+	switch emitFlowOrder {
+	case 1:
+		for i, j := 0, len(flows)-1; i < j; i, j = i+1, j-1 {
+			flows[i], flows[j] = flows[j], flows[i]
+		}
+	case 2:
+		var odd, even []*Flow
+		for i, f := range flows {
+			if i%2 == 1 {
+				odd = append(odd, f)
+			} else {
+				even = append(even, f)
+			}
+		}
+		flows = append(odd, even...)
+	}
+	for _, f := range flows {
 		if f.Cond == nil {
 			fmt.Fprintf(b, "%s<bpmn:sequenceFlow id=\"%s\" sourceRef=\"%s\" targetRef=\"%s\"/>\n", ind, f.ID, f.From, f.To)
 		} else {
@@ -361,6 +397,8 @@ func (d *Definitions) XML() string {
 		emitImplicitLang = defLang
 		defer func() { emitImplicitLang = "" }()
 	}
+	emitFlowOrder, emitFlowsFirst = d.FlowOrder, d.FlowsFirst
+	defer func() { emitFlowOrder, emitFlowsFirst = 0, false }()
 	b.WriteString(`<bpmn:definitions xmlns:bpmn="http://www.omg.org/spec/BPMN/20100524/MODEL" xmlns:olive="http://olive.io/spec/BPMN/MODEL" xmlns:xsi="http://www.w3.org/2001/XMLSchema-instance" id="Defs" targetNamespace="http://bpmn.io/schema/bpmn" expressionLanguage="` + defLang + `"` + extra + `>` + "\n")
 	sigs := append([]string{}, d.Signals...)
 	sort.Strings(sigs)
